@@ -320,6 +320,38 @@ def gen_dcop(rng, nmax=5, p_cost=0.3, p_nary=0.25, dmax=3):
     return vars_, cons
 
 
+def gen_tie_dcop(rng):
+    """tie-rich instance with own costs on most variables: domains of 3-4 values, own costs in {0,1}
+    (sometimes {0,1,2}), binary tables in {0,1} (sometimes up to 2), so that 'constraint cost of the current
+    value == constraint + own cost of the best values' (DSA: delta == 0 while the current value is NOT one
+    of the best values) together with several best values is frequent (~10% of the runs, variants B/C)"""
+    n = rng.randint(2, 4)
+    cr = rng.choice([1, 1, 1, 2])
+    vars_ = []
+    for i in range(n):
+        dom = list(range(rng.choice([3, 4, 3, 2])))
+        v = dict(dom=dom, init=rng.choice(dom) if rng.random() < 0.2 else None, costs=None)
+        if rng.random() < 0.85:
+            v["costs"] = [rng.randint(0, cr) for _ in dom]
+            if rng.random() < 0.3:
+                v["costfunc"] = 1
+        vars_.append(v)
+    cons = []
+    for i in range(n):
+        for j in range(i + 1, n):
+            if rng.random() < 0.7 or (j == i + 1 and not cons):
+                cons.append(dict(scope=[i, j] if rng.random() < 0.8 else [j, i]))
+    if rng.random() < 0.1:
+        cons.append(dict(scope=[rng.randrange(n)]))
+    for c in cons:
+        size = 1
+        for i in c["scope"]:
+            size *= len(vars_[i]["dom"])
+        hi = rng.choice([1, 1, 1, 2])
+        c["table"] = [rng.randint(0, hi) for _ in range(size)]
+    return vars_, cons
+
+
 # ------------------------------------------------------------------ independent evaluation (oracles)
 def cons_cost(case, k, asg):
     c = case["cons"][k]
